@@ -14298,7 +14298,10 @@ gcry_error_t CallasDonnerhackeFinneyShawThayerRFC4880::SymmetricEncryptAEAD
 			return gcry_error(GPG_ERR_TOO_SHORT); // error: input too short
 		}
 		size_t len = in.size();
-		unsigned char inbuf[len], outbuf[len], tag[taglen];
+		// heap buffers: a chunk may have up to 128 MiB
+		std::vector<unsigned char> inbuf_(len + 1), outbuf_(len + 1);
+		unsigned char *inbuf = &inbuf_[0], *outbuf = &outbuf_[0];
+		unsigned char tag[taglen];
 		if (verbose > 2)
 			std::cerr << "INFO: SymmetricEncryptAEAD in = " << std::hex;
 		for (size_t i = 0; i < len; i++)
@@ -14454,7 +14457,11 @@ gcry_error_t CallasDonnerhackeFinneyShawThayerRFC4880::SymmetricEncryptAEAD
 				gcry_cipher_close(hd);
 				return gcry_error(GPG_ERR_TOO_SHORT); // error: input too short
 			}
-			unsigned char inbuf[chunkdim], outbuf[chunkdim], tag[taglen];
+			// heap buffers: a chunk may have up to 128 MiB
+			std::vector<unsigned char> inbuf_(chunkdim + 1);
+			std::vector<unsigned char> outbuf_(chunkdim + 1);
+			unsigned char *inbuf = &inbuf_[0], *outbuf = &outbuf_[0];
+			unsigned char tag[taglen];
 			for (uint64_t i = 0; i < chunkdim; i++)
 				inbuf[i] = in[nbytes+i];
 			ret = gcry_cipher_encrypt(hd, outbuf, chunkdim, inbuf, chunkdim);
@@ -14577,7 +14584,10 @@ gcry_error_t CallasDonnerhackeFinneyShawThayerRFC4880::SymmetricEncryptAEAD
 			std::cerr << "INFO: SymmetricEncryptAEAD len = " << len <<
 				std::endl;
 		}
-		unsigned char inbuf[len], outbuf[len], tag[taglen];
+		// heap buffers: a chunk may have up to 128 MiB
+		std::vector<unsigned char> inbuf_(len + 1), outbuf_(len + 1);
+		unsigned char *inbuf = &inbuf_[0], *outbuf = &outbuf_[0];
+		unsigned char tag[taglen];
 		if (verbose > 2)
 			std::cerr << "INFO: SymmetricEncryptAEAD in = " << std::hex;
 		for (size_t i = 0; i < len; i++)
@@ -15113,7 +15123,10 @@ gcry_error_t CallasDonnerhackeFinneyShawThayerRFC4880::SymmetricDecryptAEAD
 			return gcry_error(GPG_ERR_TOO_SHORT); // error: input too short
 		}
 		size_t len = in.size() - taglen;
-		unsigned char inbuf[len], outbuf[len], tag[taglen];
+		// heap buffers: a chunk may have up to 128 MiB
+		std::vector<unsigned char> inbuf_(len + 1), outbuf_(len + 1);
+		unsigned char *inbuf = &inbuf_[0], *outbuf = &outbuf_[0];
+		unsigned char tag[taglen];
 		if (verbose > 2)
 			std::cerr << "INFO: SymmetricDecryptAEAD in = " << std::hex;
 		for (size_t i = 0; i < len; i++)
@@ -15254,7 +15267,11 @@ gcry_error_t CallasDonnerhackeFinneyShawThayerRFC4880::SymmetricDecryptAEAD
 				gcry_cipher_close(hd);
 				return gcry_error(GPG_ERR_TOO_SHORT); // error: input too short
 			}
-			unsigned char inbuf[chunkdim], outbuf[chunkdim], tag[taglen];
+			// heap buffers: a chunk may have up to 128 MiB
+			std::vector<unsigned char> inbuf_(chunkdim + 1);
+			std::vector<unsigned char> outbuf_(chunkdim + 1);
+			unsigned char *inbuf = &inbuf_[0], *outbuf = &outbuf_[0];
+			unsigned char tag[taglen];
 			for (uint64_t i = 0; i < chunkdim; i++)
 				inbuf[i] = in[nbytes+i];
 			for (size_t i = 0; i < taglen; i++)
@@ -15349,7 +15366,10 @@ gcry_error_t CallasDonnerhackeFinneyShawThayerRFC4880::SymmetricDecryptAEAD
 			std::cerr << "INFO: SymmetricDecryptAEAD len = " << len <<
 				std::endl;
 		}
-		unsigned char inbuf[len], outbuf[len], tag[taglen];
+		// heap buffers: a chunk may have up to 128 MiB
+		std::vector<unsigned char> inbuf_(len + 1), outbuf_(len + 1);
+		unsigned char *inbuf = &inbuf_[0], *outbuf = &outbuf_[0];
+		unsigned char tag[taglen];
 		if (verbose > 2)
 			std::cerr << "INFO: SymmetricDecryptAEAD in = " << std::hex;
 		for (size_t i = 0; i < len; i++)
